@@ -21,6 +21,8 @@ func init() {
 }
 
 func runC08(e *Env) {
+	ruleC08Tab(e)
+	e.S.Floor("C08.tab", 30)
 	ns := e.Fn("C08.ovf", "size", "newSize")
 	dp := e.Fn("C08.trim", "size", "DefaultParser")
 	e.Flow(func(c *flow.Ctx) {
